@@ -574,6 +574,9 @@ class Translator:
         else:
             ix = (self.tr(idx),)
         ba = single_atom(base)
+        if isinstance(idx, ast.Slice) and ba is not None and ba[0] in ("tuple", "list") and idx.lower is None and idx.upper is None \
+                and isinstance(idx.step, ast.UnaryOp) and isinstance(idx.step.op, ast.USub) and isinstance(idx.step.operand, ast.Constant) and idx.step.operand.value == 1:
+            return atom_poly((ba[0], tuple(reversed(ba[1]))))      # (a, b)[::-1] = (b, a)
         if isinstance(idx, ast.Slice) and ba is not None and ba[0] == "call" and ba[1] in ("list", "tuple") and len(ba[2]) == 1:
             # a slice of list(x) / tuple(x) is the list / tuple of the slice of x
             return atom_poly(("call", ba[1], (atom_poly(("sub", ba[2][0], ix)),)))
@@ -659,6 +662,11 @@ class Translator:
             return self.tr(args[0])
         if name in FACT_NAMES and len(args) == 1 and not kw:
             return atom_poly(("call", "factorial", (self.tr(args[0]),)))
+        if name in ("comb", "math.comb", "scipy.special.comb") and len(args) == 2 and not kw and is_const(self.tr(args[1])) == 2:
+            n_ = self.tr(args[0])
+            return div(mul(n_, sub(n_, ONE)), const(2))        # C(n, 2) = n (n - 1) / 2
+        if name in ("prod", "math.prod") and len(args) == 1 and not kw and isinstance(args[0], (ast.GeneratorExp, ast.ListComp)):
+            pass        # handled with the reductions below when present
         if name == "int" and len(args) == 1 and not kw:
             v = self.tr(args[0])
             c = is_const(v)
@@ -677,6 +685,10 @@ class Translator:
             r = self.reduction("prod", args[0])
             if r is not None:
                 return r
+        if name in ("math.prod", "prod") and len(args) == 1 and len(kw) == 1 and kw[0][0] == "start":
+            r = self.reduction("prod", args[0])     # math.prod(xs, start=s) = s * prod(xs)
+            if r is not None:
+                return mul(kw[0][1], r)
         if name == "len" and len(args) == 1 and not kw:
             a0 = args[0]
             if isinstance(a0, ast.Attribute) and a0.attr in ("nodes", "edges"):
@@ -726,6 +738,14 @@ class Translator:
             dom, elem, lvl = self.domain_elem(args[0], lvl)
             val = self.tr(args[1]) if len(args) == 2 else atom_poly(("sym", "None"))
             return atom_poly(("dictacc", (("set", elem, val, ((dom, lvl, ()),)),)))
+        if name == "dict" and len(args) == 1 and not kw and isinstance(args[0], ast.Call) and astx.txt(args[0].func) == "zip" and len(args[0].args) == 2 and not args[0].keywords:
+            # dict(zip(K, V)) = {k: v for k, v in zip(K, V)}
+            lvl_ = self._level()
+            k_, v_ = f"zk{lvl_}", f"zv{lvl_}"
+            gen = ast.GeneratorExp(elt=ast.Tuple(elts=[ast.Name(id=k_, ctx=ast.Load()), ast.Name(id=v_, ctx=ast.Load())], ctx=ast.Load()),
+                                   generators=[ast.comprehension(target=ast.Tuple(elts=[ast.Name(id=k_, ctx=ast.Store()), ast.Name(id=v_, ctx=ast.Store())], ctx=ast.Store()),
+                                                                 iter=args[0], ifs=[], is_async=0)])
+            return self.tr(ast.fix_missing_locations(ast.copy_location(ast.Call(func=ast.Name(id="dict", ctx=ast.Load()), args=[gen], keywords=[]), n)))
         if name == "dict" and len(args) == 1 and not kw:
             a0d = single_atom(self.tr(args[0]))
             if a0d is not None and a0d[0] == "dictacc":
@@ -754,6 +774,9 @@ class Translator:
         if not isinstance(n.func, (ast.Name, ast.Attribute)):
             # call of a computed callee, e.g. a callback table entry self._arr_fp[i](deg)
             return atom_poly(("apply", self.tr(n.func), targs + kw))
+        if isinstance(n.func, ast.Attribute) and isinstance(n.func.value, ast.Name) and n.func.value.id == "self":
+            # a repo method reads the elements of a sequence argument: tuple(x) / list(x) hand it the same elements
+            targs = tuple(_strip_seq_conv(a_) for a_ in targs)
         if isinstance(n.func, ast.Attribute) and astx.attr_path(n.func) is None:
             # method call on a computed receiver
             return atom_poly(("call", "." + n.func.attr, (self.tr(n.func.value),) + targs + kw))
